@@ -66,8 +66,9 @@ func attachmentCompactMarkPhase(ctx context.Context, dataStore base.DataStore, c
 		}
 
 		// We need to mark attachments in every leaf revision of the current doc
-		// We will build up a list of attachment names which map to attachment doc IDs. Avoids doing multiple KV ops
-		// when marking if multiple leaves are referencing the same attachment.
+		// We will build up a list of attachment doc IDs which map to attachment names. Avoids doing multiple KV ops
+		// when marking if multiple leaves are referencing the same attachment, while still marking every attachment
+		// doc when leaves use one attachment name for different content.
 		attachmentKeys := make(map[string]string)
 		attachmentData, err := getAttachmentSyncData(event.DataType, event.Value)
 		if err != nil {
@@ -116,7 +117,7 @@ func attachmentCompactMarkPhase(ctx context.Context, dataStore base.DataStore, c
 			}
 		}
 
-		for attachmentName, attachmentDocID := range attachmentKeys {
+		for attachmentDocID, attachmentName := range attachmentKeys {
 			// Stamp the current compaction ID into the attachment xattr. This is performing the actual marking
 			_, err = dataStore.SetXattrs(ctx, attachmentDocID, map[string][]byte{
 				getCompactionIDSubDocPath(compactionID): []byte(strconv.Itoa(int(time.Now().Unix())))},
@@ -298,7 +299,7 @@ func handleAttachments(attachmentKeyMap map[string]string, docKey string, attach
 		}
 
 		attKey := MakeAttachmentKey(AttVersion1, docKey, digest.(string))
-		attachmentKeyMap[attName] = attKey
+		attachmentKeyMap[attKey] = attName
 	}
 }
 
